@@ -886,3 +886,146 @@ Proof.
   exact (lazy_block_order_iso_scoped_real_partial rx t fl supplied regexes find call okfn Hcall g0 Hcl Hglob fuel ms ms' ls p HP
            (checked_pm_ok2_real q f fl okfn ms Hck Hok) Hrun).
 Qed.
+
+(* ================= TWO FILES, REAL: re-parsed reordered files (second audit, AUDIT2 §8 finding on StanzaPerm) =================
+   The two-file theorems above demand `Permutation` of the stanza RECORDS; two loader-produced files whose texts contain the same stanzas in another
+   order differ in every location and in the FILE capture indices (the merged query numbers capture names by first appearance), so that hypothesis is
+   false of them.  Here (Model/LocErase.v, Proofs/LocSim*.v):
+     - `erase_file_locs fl`: every statement / stanza / expression / global / shorthand location set to (0,0); names, quantifiers, both capture indices,
+       node texts, scan arm numbers, defaults kept;
+     - `reloc_stanza rho st`: the same erasure AND every file capture index i (in `ECapture`, `st_full_file_idx`) replaced by `rho i`;
+     - `estate s`: the lazy state with every stored statement context (thunk / scoped-definition / lazy-statement / prev-element debug info) reduced to
+       its matched node;
+     - `run_img r rF`: both Ok with state `estate s` and the same polls, or both Err (contexts may differ), or the same Panic, or both OutOfFuel;
+       `run_same r r'`: the same with `estate s' = estate s` (in particular the same graph).
+   With `config0` (no debug attributes) locations are read only into statement contexts, i.e. into error contexts and debug info. *)
+From TSG Require Import Model.LocErase Proofs.LocSimRun.
+
+(* (1) locations do not influence the outcome kind, the polls, nor — on success — the graph: every budget, every input, every fuel *)
+Theorem lazy_outcome_ignores_locations : forall (rx : Type) t fl supplied budget (regexes : list rx) find call fuel ms g0,
+  run_img (run_lazy t fl config0 supplied budget regexes find call fuel ms g0)
+          (run_lazy t (erase_file_locs fl) config0 supplied budget regexes find call fuel ms g0).
+Proof. exact @run_lazy_erase. Qed.
+Theorem lazy_ok_graph_ignores_locations : forall (rx : Type) t fl supplied budget (regexes : list rx) find call fuel ms g0 ls p,
+  run_lazy t fl config0 supplied budget regexes find call fuel ms g0 = Ok (ls, p) ->
+  run_lazy t (erase_file_locs fl) config0 supplied budget regexes find call fuel ms g0 = Ok (estate ls, p) /\ l_graph (estate ls) = l_graph ls.
+Proof.
+  intros rx t fl supplied budget regexes find call fuel ms g0 ls p E.
+  pose proof (run_lazy_erase t fl supplied budget regexes find call fuel ms g0) as H. rewrite E in H.
+  destruct (run_lazy t (erase_file_locs fl) config0 supplied budget regexes find call fuel ms g0) as [[ls' p']|e|x|]; cbn [run_img] in H; try contradiction.
+  destruct H as (-> & ->). split; reflexivity.
+Qed.
+(* ... and conversely: a successful run of the erased file is the erasure of a successful run of the file *)
+Theorem lazy_ok_graph_ignores_locations_conv : forall (rx : Type) t fl supplied budget (regexes : list rx) find call fuel ms g0 lsE p,
+  run_lazy t (erase_file_locs fl) config0 supplied budget regexes find call fuel ms g0 = Ok (lsE, p) ->
+  exists ls, run_lazy t fl config0 supplied budget regexes find call fuel ms g0 = Ok (ls, p) /\ lsE = estate ls /\ l_graph lsE = l_graph ls.
+Proof.
+  intros rx t fl supplied budget regexes find call fuel ms g0 lsE p E.
+  pose proof (run_lazy_erase t fl supplied budget regexes find call fuel ms g0) as H. rewrite E in H.
+  destruct (run_lazy t fl config0 supplied budget regexes find call fuel ms g0) as [[ls p']|e|x|]; cbn [run_img] in H; try contradiction.
+  destruct H as (-> & ->). exists ls. repeat split.
+Qed.
+
+(* (2) index independence.  `block_rel fl fl' b b'` (blocks = (stanza, match) pairs as executed, `blocks_of`): there is a renaming rho of the file capture
+   indices with  reloc_stanza rho st = erase_stanza_locs st'  (the stanza of fl, re-indexed, is the stanza of fl' up to locations), the shorthands related
+   the same way, and the match of fl' answers at `rho i` what the match of fl answers at `i`.  For an injective rho the last clause holds of
+   `rename_match rho m`: *)
+Theorem renamed_match_agrees : forall rho m, (forall i j, rho i = rho j -> i = j) ->
+  forall i, nodes_for_capture (rename_match rho m) (rho i) = nodes_for_capture m i.
+Proof. exact nodes_rename_match. Qed.
+(* two files whose executed blocks are related one by one (same order) have the same outcome up to statement contexts: every budget, input, fuel *)
+Theorem lazy_run_reindexed : forall (rx : Type) t fl fl' supplied budget (regexes : list rx) find call fuel ms ms' g0,
+  reloc_rest fl fl' -> Forall2 (block_rel fl fl') (blocks_of fl ms) (blocks_of fl' ms') ->
+  run_same (run_lazy t fl config0 supplied budget regexes find call fuel ms g0)
+           (run_lazy t fl' config0 supplied budget regexes find call fuel ms' g0).
+Proof. exact @run_lazy_reloc. Qed.
+
+(* (3) THE TWO-FILE THEOREM FOR RE-PARSED FILES.  fl' has, up to locations and a per-block renaming of the file capture indices, the executed blocks of
+   fl in another order: some permutation ms'' of the matches of fl is related block by block to the matches ms' of fl'.  Fragment of STEP 4 (scoped
+   variables), demanded of (the normalized) fl and its matches only, as in lazy_block_order_iso_scoped_real_partial. *)
+Theorem lazy_stanza_reorder_real_partial : forall (rx : Type) (t : tree) (fl fl' : file) (supplied : globals) (regexes : list rx)
+    (find : rx -> str -> option (list (option (N * N)))) (call : ident -> graph -> list value -> res (value * graph)) (okfn : ident -> Prop),
+  (forall f, okfn f -> call_ok call f) ->
+  forall g0 : graph, gclosed (N.of_nat (length g0)) g0 ->
+  (forall glob, check_globals (f_globals fl) (globals_nested supplied) = Ok glob ->
+     forall name v, globals_get glob name = Some v -> vall (fun i => i < N.of_nat (length g0)) v) ->
+  forall (fuel : nat) (ms ms' : list (N * qmatch)) (ls : lstate) (p : polls),
+  reloc_rest fl fl' ->
+  (exists ms'', Permutation ms ms'' /\ Forall2 (block_rel fl fl') (blocks_of fl ms'') (blocks_of fl' ms')) ->
+  Forall (pm_ok2 (normalize_file fl) okfn) ms ->
+  run_lazy t fl config0 supplied None regexes find call fuel ms g0 = Ok (ls, p) ->
+  exists r r', (forall i, r' (r i) = i) /\ (forall i, r (r' i) = i) /\ (forall i, i < N.of_nat (length g0) -> r i = i) /\
+    exists fuel0, forall fuel', (fuel0 <= fuel')%nat -> exists ls' p',
+      run_lazy t fl' config0 supplied None regexes find call fuel' ms' g0 = Ok (ls', p') /\ graph_iso r (l_graph ls) (l_graph ls').
+Proof.
+  intros rx t fl fl' supplied regexes find call okfn Hcall g0 Hcl Hglob fuel ms ms' ls p HR (ms'' & HP & HB) Hok Hrun.
+  destruct (lazy_block_order_iso_scoped_real_partial rx t fl supplied regexes find call okfn Hcall g0 Hcl Hglob fuel ms ms'' ls p HP Hok Hrun)
+    as (r & r' & I1 & I2 & I3 & fuel0 & HF).
+  exists r, r'. repeat (split; [assumption|]). exists fuel0. intros fuel' Hf. destruct (HF fuel' Hf) as (ls2 & p2 & E & Hiso).
+  pose proof (run_lazy_reloc t fl fl' supplied None regexes find call fuel' ms'' ms' g0 HR HB) as RS. rewrite E in RS.
+  destruct (run_lazy t fl' config0 supplied None regexes find call fuel' ms' g0) as [[ls' p']|e|x|]; cbn [run_same] in RS; try contradiction.
+  exists ls', p'. split; [reflexivity|]. destruct RS as (Eg & _).
+  replace (l_graph ls') with (l_graph ls2); [exact Hiso|]. exact (f_equal l_graph (eq_sym Eg)).
+Qed.
+(* the failure direction: if the run of fl fails (not by fuel), no order of the related blocks of fl' succeeds, at any fuel *)
+Theorem lazy_stanza_reorder_fail_real_partial : forall (rx : Type) (t : tree) (fl fl' : file) (supplied : globals) (regexes : list rx)
+    (find : rx -> str -> option (list (option (N * N)))) (call : ident -> graph -> list value -> res (value * graph)) (okfn : ident -> Prop),
+  (forall f, okfn f -> call_ok call f) ->
+  forall g0 : graph, gclosed (N.of_nat (length g0)) g0 ->
+  (forall glob, check_globals (f_globals fl) (globals_nested supplied) = Ok glob ->
+     forall name v, globals_get glob name = Some v -> vall (fun i => i < N.of_nat (length g0)) v) ->
+  forall (fuel : nat) (ms ms' : list (N * qmatch)),
+  reloc_rest fl fl' ->
+  (exists ms'', Permutation ms ms'' /\ Forall2 (block_rel fl fl') (blocks_of fl ms'') (blocks_of fl' ms')) ->
+  Forall (pm_ok2 (normalize_file fl) okfn) ms ->
+  (forall r, run_lazy t fl config0 supplied None regexes find call fuel ms g0 <> Ok r) ->
+  run_lazy t fl config0 supplied None regexes find call fuel ms g0 <> OutOfFuel ->
+  forall fuel' r, run_lazy t fl' config0 supplied None regexes find call fuel' ms' g0 <> Ok r.
+Proof.
+  intros rx t fl fl' supplied regexes find call okfn Hcall g0 Hcl Hglob fuel ms ms' HR (ms'' & HP & HB) Hok Hno Hoof fuel' [ls' p'] E'.
+  pose proof (run_lazy_reloc t fl fl' supplied None regexes find call fuel' ms'' ms' g0 HR HB) as RS. rewrite E' in RS.
+  destruct (run_lazy t fl config0 supplied None regexes find call fuel' ms'' g0) as [[ls2 p2]|e|x|] eqn:E2; cbn [run_same] in RS; try contradiction.
+  exact (lazy_block_order_fail_scoped_real_partial rx t fl supplied regexes find call okfn Hcall g0 Hcl Hglob fuel ms ms'' HP Hok Hno Hoof fuel' (ls2, p2) E2).
+Qed.
+
+(* (4) NON-VACUITY ON A REAL PAIR (Proofs/LocSimExample.v): the texts
+         (a) @x { node @x.n  attr (@x.n) k = "A" }  (b) @y { node @y.n  attr (@y.n) k = "B" }     and the same two stanzas swapped
+   are loaded by the LOADER MODEL (`Loader.load`: parser model, then checker model, with the merged-query tables of each text).  The loaded files rr_flAB,
+   rr_flBA differ in all locations and in the file capture indices of @x / @y; the old hypothesis is false of them; `reloc_rest` and `block_rel` (renaming
+   0 <-> 2, matches renamed accordingly) hold; the theorem gives, from the run of AB alone, the run of BA on its matches in ITS stanza order (the blocks of
+   AB in the other order: `rr_ms'`) and in node order (`rr_ms'_ts`), with an isomorphic graph; by evaluation the graph of BA in its stanza order is a
+   different list. *)
+From TSG Require Import Model.Loader Proofs.LocSimExample.
+Example c08_real_reordered_files :
+  rr_ldAB = Loader.LdOk rr_flAB [] /\ rr_ldBA = Loader.LdOk rr_flBA [] /\
+  ~ Permutation (f_stanzas rr_flAB) (f_stanzas rr_flBA) /\
+  reloc_rest rr_flAB rr_flBA /\
+  Permutation rr_ms [(1, rr_mB); (0, rr_mA)] /\ rr_ms <> [(1, rr_mB); (0, rr_mA)] /\
+  Forall2 (block_rel rr_flAB rr_flBA) (blocks_of rr_flAB [(1, rr_mB); (0, rr_mA)]) (blocks_of rr_flBA rr_ms') /\
+  Forall2 (block_rel rr_flAB rr_flBA) (blocks_of rr_flAB rr_ms) (blocks_of rr_flBA rr_ms'_ts) /\
+  Forall (pm_ok2 (normalize_file rr_flAB) nofn) rr_ms /\
+  (exists ls p,
+     run_lazy K7.k7_tree rr_flAB config0 [[]] None ([] : list Regex.regex) Regex.rx_captures rr_call default_fuel rr_ms [] = Ok (ls, p) /\ l_graph ls = rr_gAB /\
+     (exists r r', (forall i, r' (r i) = i) /\ (forall i, r (r' i) = i) /\
+        exists fuel0, forall fuel', (fuel0 <= fuel')%nat -> exists ls' p',
+          run_lazy K7.k7_tree rr_flBA config0 [[]] None ([] : list Regex.regex) Regex.rx_captures rr_call fuel' rr_ms' [] = Ok (ls', p') /\
+          graph_iso r (l_graph ls) (l_graph ls')) /\
+     (exists r r', (forall i, r' (r i) = i) /\ (forall i, r (r' i) = i) /\
+        exists fuel0, forall fuel', (fuel0 <= fuel')%nat -> exists ls' p',
+          run_lazy K7.k7_tree rr_flBA config0 [[]] None ([] : list Regex.regex) Regex.rx_captures rr_call fuel' rr_ms'_ts [] = Ok (ls', p') /\
+          graph_iso r (l_graph ls) (l_graph ls'))) /\
+  (exists ls' p',
+     run_lazy K7.k7_tree rr_flBA config0 [[]] None ([] : list Regex.regex) Regex.rx_captures rr_call default_fuel rr_ms' [] = Ok (ls', p') /\
+     l_graph ls' = rr_gBA /\ length rr_gBA = 2%nat /\ rr_gBA <> rr_gAB).
+Proof.
+  destruct rr_loaded as (L1 & L2). destruct rr_perm as (P1 & P2).
+  split; [exact L1|]. split; [exact L2|]. split; [exact rr_old_hypothesis_false|]. split; [exact rr_rest|]. split; [exact P1|]. split; [exact P2|].
+  split; [exact rr_blocks_related|]. split; [exact rr_blocks_related_ts|]. split; [exact rr_blocks_ok|]. split; [|exact rr_run_BA].
+  destruct rr_run_AB as (ls & p & E & Hg & _). exists ls, p. split; [exact E|]. split; [exact Hg|]. split.
+  - destruct (lazy_stanza_reorder_real_partial _ K7.k7_tree rr_flAB rr_flBA [[]] [] Regex.rx_captures rr_call nofn (nofn_ok _ _) [] nil_closed rr_globals
+                default_fuel rr_ms rr_ms' ls p rr_rest (ex_intro _ _ (conj P1 rr_blocks_related)) rr_blocks_ok E) as (r & r' & I1 & I2 & _ & H).
+    exists r, r'. split; [exact I1|]. split; [exact I2|exact H].
+  - destruct (lazy_stanza_reorder_real_partial _ K7.k7_tree rr_flAB rr_flBA [[]] [] Regex.rx_captures rr_call nofn (nofn_ok _ _) [] nil_closed rr_globals
+                default_fuel rr_ms rr_ms'_ts ls p rr_rest (ex_intro _ _ (conj (Permutation_refl _) rr_blocks_related_ts)) rr_blocks_ok E) as (r & r' & I1 & I2 & _ & H).
+    exists r, r'. split; [exact I1|]. split; [exact I2|exact H].
+Qed.
